@@ -322,6 +322,64 @@ class Compatible(Harness):
         return combined is None
 
 
+class OpaquePruning(Harness):
+    """the pruning loop of WMSServer.map: layers below an opaque layer are dropped only if that layer itself
+    renders the request (a layer outside its resolution range draws nothing and must hide nothing)"""
+    modules = ['mapproxy.layer', 'mapproxy.service.wms']
+    functions = ['WMSServer.map', 'WMSLayer.renders_query', 'WMSLayer.is_opaque', 'WMSLayer.map_layers_for_query', 'LayerRenderer.render']
+    merge_bool = False
+
+    @classmethod
+    def build(cls, L, cfg):
+        from props.C10_auth import WMSAuth
+        return WMSAuth.build.__func__(cls, L, cfg)
+
+    @classmethod
+    def inputs(cls, ctx, cfg):
+        from engine.symex import bool_var
+        return dict(opaque=[bool_var('opaque_%s' % n) for n in 'abc'], renders=[bool_var('renders_%s' % n) for n in 'abc'])
+
+    @classmethod
+    def native_inputs(cls, cex):
+        return {k: [bool(x) for x in v] for k, v in cex.items()}
+
+    @classmethod
+    def prop(cls, ctx, cfg, opaque, renders):
+        import types
+        from props.C10_auth import _MapLayer, _Http
+        w, log, merged = ctx['w'], ctx['log'], ctx['merged']
+        del log[:]
+        del merged[:]
+        o = [B(x) for x in opaque]
+        r = [B(x) for x in renders]
+        lays = []
+        for i, n in enumerate('abc'):
+            src = _MapLayer(n, log)
+            src.is_opaque = (lambda q, i=i: o[i])
+            lyr = w.WMSLayer(n, n.upper(), [src])
+            lays.append(lyr)
+        root = w.WMSGroupLayer(None, 'root', None, lays)
+        for i, lyr in enumerate(lays):
+            lyr.res_range = types.SimpleNamespace(contains=lambda bbox, size, srs, i=i: r[i])
+        s = w.WMSServer(root, {}, ['EPSG:4326'], {'image/png': types.SimpleNamespace(copy=lambda: types.SimpleNamespace(format=types.SimpleNamespace(mime_type='image/png')))})
+        s.check_map_request = lambda req: None
+
+        class P(dict):
+            pass
+        p = P()
+        p.bbox, p.size, p.srs, p.format, p.layers = (0, 0, 10, 10), (100, 100), 'EPSG:4326', 'image/png', ['a', 'b', 'c']
+        p.format_mime_type, p.bgcolor, p.transparent = 'image/png', '#ffffff', True
+        req = types.SimpleNamespace(params=p, http=_Http({}), dimensions={}, version='1.1.1')
+        s.map(req)
+        got = [n for k, n in log if k == 'map']
+        cut = 0
+        for i in range(3):
+            if r[i] and o[i]:
+                cut = i
+        want = ['abc'[i] for i in range(cut, 3) if r[i]]
+        return got == want
+
+
 CANARIES = [
     ('is_opaque accepts a request that only intersects the coverage', 'OpaqueSound', {'mapproxy.source.wms': [(
         "        if self.coverage.contains(query.bbox, query.srs):\n            # not transparent and completely inside coverage\n            return True",
@@ -341,6 +399,9 @@ CANARIES = [
     ('combination skips over a non-combinable layer', 'Combine', {'mapproxy.service.wms': [(
         "        else:\n            combined_layers.append(current_layer)\n    return combined_layers",
         "        else:\n            combined_layers.insert(0, current_layer)\n    return combined_layers")]}, dict(n=3)),
+    ('a layer outside its resolution range still hides the layers below', 'OpaquePruning', {'mapproxy.service.wms': [(
+        "            if layer.renders_query(query):\n                # if layer is not transparent and will be rendered,\n                # remove already added (then hidden) layers\n                if layer.is_opaque(query):\n                    actual_layers = odict()\n",
+        "            if layer.is_opaque(query):\n                actual_layers = odict()\n            if layer.renders_query(query):\n")]}, {}),
     ('sources with different resolution ranges combined', 'Compatible', {'mapproxy.source.wms': [(
         "        if self.res_range != other.res_range:\n            return False\n", "")]}, dict(differs='res_range')),
     ('sources with different coverages combined', 'Compatible', {'mapproxy.source.wms': [(
@@ -362,10 +423,11 @@ def obligations(tier, seed):
         specs.append(spec(MOD, 'Combine', 'combined-layers/n%d' % n, cfg=dict(n=n)))
     for d in ('none', 'srs', 'formats', 'coverage', 'opacity', 'opacity-a', 'opacity-b', 'opacity-both', 'transparent_color', 'fwd', 'res_range'):
         specs.append(spec(MOD, 'Compatible', 'combine-compatible/%s' % d, cfg=dict(differs=d)))
-    twins = dict(OpaqueSound=ocfgs[0], FastPath={}, Combine=dict(n=3), Compatible=dict(differs='coverage'), SubImageLabel={})
+    specs.append(spec(MOD, 'OpaquePruning', 'opaque-pruning-loop-of-the-wms-service', cfg={}, cost=5))
+    twins = dict(OpaqueSound=ocfgs[0], FastPath={}, Combine=dict(n=3), Compatible=dict(differs='coverage'), SubImageLabel={}, OpaquePruning={})
     for h, c in twins.items():
         specs.append(spec(MOD, h, 'twin/' + h, kind='witness', cfg=c))
-    for label, h, patches, c in (CANARIES if tier == 'thorough' else CANARIES[:1] + CANARIES[2:6]):
+    for label, h, patches, c in (CANARIES if tier == 'thorough' else CANARIES[:1] + CANARIES[2:7]):
         c = dict(c)
         if 'size' in c:
             c['size'] = list(c['size'])
@@ -379,11 +441,12 @@ META = dict(
     explanation='Partial claim: the soundness conditions of the three shortcuts, not the pixel arithmetic. z3 shows for symbolic query and '
                 'coverage rectangles, opacity and flags: (1) whenever WMSSource.is_opaque says yes, get_map answers the whole request rectangle '
                 'with one full-size upstream request, the source is not transparent and has no partial opacity -- so skipping layers below '
-                'cannot change the picture; (2) LayerMerger.merge returns the single layer unchanged only if no clipping, no global coverage, '
+                'cannot change the picture, and the pruning loop of WMSServer.map drops the layers below an opaque layer only if that layer itself '
+                'renders the request (oracle booleans per layer); (2) LayerMerger.merge returns the single layer unchanged only if no clipping, no global coverage, '
                 'same size, (layer opaque or output transparent) and no partial opacity; (3) combined_layers merges only adjacent layers and '
                 'preserves bottom-to-top order for every combinable relation; (4) sources that differ in SRS list, formats, coverage, '
                 'transparent colour or forwarded dimension values, or of which any has an opacity (symbolic values, equal ones included), are never combined.',
-    functions=sorted(set(OpaqueSound.functions + FastPath.functions + Combine.functions + Compatible.functions + SubImageLabel.functions)),
+    functions=sorted(set(OpaqueSound.functions + FastPath.functions + Combine.functions + Compatible.functions + SubImageLabel.functions + OpaquePruning.functions)),
     bounds='query rectangles of fixed pixel size anywhere within +-1e7; coverage any rectangle; opacity in (0, 1]; stacks of up to 4 (thorough 5) layers',
     outside='PIL pixel arithmetic (alpha_composite/paste/blend/putalpha: C code), paletted/colour-key handling, polygon coverages, opacity 0 '
             '(a configuration that makes the layer invisible yet "opaque" for pruning)',
